@@ -5,11 +5,16 @@ import types
 from typing import List
 
 from harness import ch_common as CM
+import os as _os
+
 from vlib import chsupport, sympd
 
 CR = CM.core_ranking()
 PB = chsupport.PB
 
+
+# thorough tier: one more symbolic character per string (CH_EXTRA=1 is set by the runner)
+EXTRA = int(_os.environ.get('CH_EXTRA', '0'))
 
 def tokens(v: str) -> List[str]:
     """tokens of a delimited multi-value cell (',' in CSV sources, '-' in VW sources)"""
@@ -118,7 +123,7 @@ def A(**k):
 
 def multivalue(v0: str, v1: str) -> bool:
     """
-    pre: len(v0) <= 2 and len(v1) <= 1
+    pre: len(v0) <= 2 + EXTRA and len(v1) <= 1 + EXTRA
     pre: all(ch in 'ab,-' for ch in v0 + v1)
     post: _
     """
@@ -130,7 +135,7 @@ def multivalue(v0: str, v1: str) -> bool:
 
 def multivalue_three_rows(v0: str, v2: str) -> bool:
     """
-    pre: len(v0) <= 3 and len(v2) <= 1
+    pre: len(v0) <= 3 + EXTRA and len(v2) <= 1 + EXTRA
     pre: all(ch in 'ab,' for ch in v0 + v2)
     post: _
     """
@@ -142,7 +147,7 @@ def multivalue_three_rows(v0: str, v2: str) -> bool:
 
 def onesided(a0: str, b0: str, a1: str, b1: str) -> bool:
     """
-    pre: len(a0) <= 1 and len(b0) <= 1 and len(a1) <= 1 and len(b1) <= 1
+    pre: len(a0) <= 1 + EXTRA and len(b0) <= 1 + EXTRA and len(a1) <= 1 + EXTRA and len(b1) <= 1 + EXTRA
     pre: all(ch in 'ab&' for ch in a0 + b0 + a1 + b1)
     post: _
     """
@@ -154,7 +159,7 @@ def onesided(a0: str, b0: str, a1: str, b1: str) -> bool:
 
 def onesided_three_rows(b0: str, b2: str) -> bool:
     """
-    pre: len(b0) <= 2 and len(b2) <= 2
+    pre: len(b0) <= 2 + EXTRA and len(b2) <= 2 + EXTRA
     pre: all(ch in 'xy' for ch in b0 + b2)
     post: _
     """
@@ -166,7 +171,7 @@ def onesided_three_rows(b0: str, b2: str) -> bool:
 
 def twosided(a0: str, b0: str, b1: str) -> bool:
     """
-    pre: len(a0) <= 1 and len(b0) <= 1 and len(b1) <= 1
+    pre: len(a0) <= 1 + EXTRA and len(b0) <= 1 + EXTRA and len(b1) <= 1 + EXTRA
     pre: all(ch in 'ab' for ch in a0 + b0 + b1)
     post: _
     """
@@ -180,7 +185,7 @@ def twosided(a0: str, b0: str, b1: str) -> bool:
 
 def multivalue_twin(v0: str, v1: str) -> bool:
     """
-    pre: len(v0) <= 2 and len(v1) <= 1
+    pre: len(v0) <= 2 + EXTRA and len(v1) <= 1 + EXTRA
     pre: all(ch in 'ab,-' for ch in v0 + v1)
     post: not _
     """
@@ -189,7 +194,7 @@ def multivalue_twin(v0: str, v1: str) -> bool:
 
 def multivalue_three_rows_twin(v0: str, v2: str) -> bool:
     """
-    pre: len(v0) <= 3 and len(v2) <= 1
+    pre: len(v0) <= 3 + EXTRA and len(v2) <= 1 + EXTRA
     pre: all(ch in 'ab,' for ch in v0 + v2)
     post: not _
     """
@@ -198,7 +203,7 @@ def multivalue_three_rows_twin(v0: str, v2: str) -> bool:
 
 def onesided_twin(a0: str, b0: str, a1: str, b1: str) -> bool:
     """
-    pre: len(a0) <= 1 and len(b0) <= 1 and len(a1) <= 1 and len(b1) <= 1
+    pre: len(a0) <= 1 + EXTRA and len(b0) <= 1 + EXTRA and len(a1) <= 1 + EXTRA and len(b1) <= 1 + EXTRA
     pre: all(ch in 'ab&' for ch in a0 + b0 + a1 + b1)
     post: not _
     """
@@ -207,7 +212,7 @@ def onesided_twin(a0: str, b0: str, a1: str, b1: str) -> bool:
 
 def onesided_three_rows_twin(b0: str, b2: str) -> bool:
     """
-    pre: len(b0) <= 2 and len(b2) <= 2
+    pre: len(b0) <= 2 + EXTRA and len(b2) <= 2 + EXTRA
     pre: all(ch in 'xy' for ch in b0 + b2)
     post: not _
     """
@@ -216,7 +221,7 @@ def onesided_three_rows_twin(b0: str, b2: str) -> bool:
 
 def twosided_twin(a0: str, b0: str, b1: str) -> bool:
     """
-    pre: len(a0) <= 1 and len(b0) <= 1 and len(b1) <= 1
+    pre: len(a0) <= 1 + EXTRA and len(b0) <= 1 + EXTRA and len(b1) <= 1 + EXTRA
     pre: all(ch in 'ab' for ch in a0 + b0 + b1)
     post: not _
     """
